@@ -62,6 +62,25 @@ class Tagged(Exception):
     pass
 
 
+def decorated(body, fl):
+    """`body` behind a decorator: the wrapper accepts whatever it is given, the function it claims to be
+    (functools.wraps) declares no parameters at all"""
+    import functools
+
+    def declared():
+        pass
+    if fl == "thr":
+        @functools.wraps(declared)
+        def wrapper(*args, **kwargs):
+            return body(*args, **kwargs)
+    else:
+        @functools.wraps(declared)
+        async def wrapper(*args, **kwargs):
+            return await body(*args, **kwargs)
+    wrapper.vh_pid = getattr(body, "vh_pid", None)
+    return wrapper
+
+
 class TaggedBase(BaseException):
     pass
 
@@ -180,6 +199,15 @@ class World:
     def runner(self, rid):
         if rid not in self.runners:
             self.runners[rid] = ServiceRunner(accept_delay=self.sc.get("accept_delay", 0.02))
+            pause = (self.sc.get("slow_running") or {}).get(str(rid))
+            if pause:
+                # a schedule, not a change of behaviour: the thread that reports `running` is held up
+                # right after it has set the flag
+                class SlowEvent(threading.Event):
+                    def set(self):
+                        super().set()
+                        time.sleep(pause)
+                self.runners[rid].running = SlowEvent()
         return self.runners[rid]
 
     # ------------------------------------------------------------ payload bodies
@@ -316,6 +344,10 @@ class World:
                             for _ in range(act[1]):
                                 log("step", pid, what="spin")
                                 await asyncio.sleep(0)
+                        elif act[0] == "park":
+                            # sleeps until cancelled, on an awaitable that nothing but this payload refers to
+                            log("step", pid, what="parked")
+                            await asyncio.get_running_loop().create_future()
                         elif act[0] == "forever":
                             while True:
                                 log("step", pid, what="beat")
@@ -364,6 +396,9 @@ class World:
                             for _ in range(act[1]):
                                 log("step", pid, what="spin")
                                 await trio.sleep(0)
+                        elif act[0] == "park":
+                            log("step", pid, what="parked")
+                            await trio.sleep_forever()
                         elif act[0] == "forever":
                             while True:
                                 log("step", pid, what="beat")
@@ -463,6 +498,8 @@ class World:
     def execute(self, pid, rid, ctx="outside"):
         spec = self.payloads[pid]
         body = self.body(spec, rid)
+        if spec.get("decorated"):
+            body = decorated(body, spec["fl"])
         a = spec.get("args") or {"args": [], "kwargs": {}}
         log("exec-call", pid, fl=spec["fl"], ctx=ctx, rid=rid)
         try:
@@ -524,6 +561,9 @@ class World:
                     self.runner(st[1] if len(st) > 1 else rid_default).running.wait(10)
                 elif k == "sleep":
                     time.sleep(st[1])
+                elif k == "gc":
+                    # the cyclic garbage collector runs whenever it likes
+                    gc.collect()
                 elif k == "adopt":
                     self.adopt(st[1], st[2] if len(st) > 2 else rid_default)
                 elif k == "execute":
